@@ -5,7 +5,7 @@ Confirm each independently written seeded change (patch.diff + demo.py [+ notes.
   - the pinned test suite passes on the patched copy
   - the demonstration fails on the patched copy and passes on the clean copy
   - the registered quick check of the property it breaks is run against the patched copy (exit code, first lines recorded)
-usage: tools/adopt_seeds.py <seeds-root> [--only C07] [--extra C01,C09]
+usage: tools/adopt_seeds.py <seeds-root> [--only C07] [--tag r2]
 """
 import os, sys, json, subprocess, shutil, re
 ROOT = os.path.dirname(os.path.dirname(os.path.abspath(__file__)))
@@ -14,11 +14,12 @@ PY = '/venv/bin/python'
 def main(argv):
     src = argv[0]
     only = None
-    extra = {}
+    tag = ''
     args = argv[1:]
     while args:
         a = args.pop(0)
         if a == '--only': only = args.pop(0).split(',')
+        elif a == '--tag': tag = args.pop(0)
     props = {json.loads(l)['id']: json.loads(l) for l in open(os.path.join(ROOT, 'properties.jsonl'))}
     for prop in sorted(os.listdir(src)):
         if only and prop not in only:
@@ -27,7 +28,9 @@ def main(argv):
             d = os.path.join(src, prop, v)
             if not os.path.exists(os.path.join(d, 'patch.diff')):
                 continue
-            name = '%s-%s' % (prop, v)
+            if not os.path.isdir(d):
+                continue
+            name = '%s-%s%s' % (prop, tag, v)
             env = dict(os.environ, VERIF_QUICK_S=os.environ.get('VERIF_QUICK_S', '20'))
             p = subprocess.run([PY, os.path.join(ROOT, 'tools', 'seedtest.py'), d, '--checks', prop, '--seeds', '0,1,2'], capture_output=True, text=True, env=env)
             try:
